@@ -1158,3 +1158,15 @@ fire('g-relay-accumulator-filters-seen-types', ['C20'], 'C20.WORKLIST-CLOSURE',
      (DIAG, 'TaskStructure.build', "            # Search for sub_tasks in each param/field of the task\n", "            all_sub_tasks = []\n"),
      (DIAG, 'TaskStructure.build', "                # Add the tasks to the list of tasks to work through\n", ""),
      (DIAG, 'TaskStructure.build', "                all_sub_tasks += [t for t in sub_tasks if type(t) not in task_structure.task_type_to_rels]", "                all_sub_tasks += [t for t in sub_tasks if type(t) not in task_structure.task_type_to_rels]\n            found_tasks += all_sub_tasks"))
+
+
+# round 8: every discovered dependency instance is forwarded to insertion (C03.INSTANCES / deps-forwarded-whole)
+fire('r8-deps-forwarded-by-equality-selection', ['C03'], 'C03.INSTANCES',
+     (LAB, 'TaskState.process_tasks', "            all_dependencies += dependency_tasks\n",
+      "            all_dependencies += [d for d in dependency_tasks if d not in self.pending_tasks]\n"))
+fire('r8-deps-forwarded-elementwise-guard', ['C03'], 'C03.INSTANCES',
+     (LAB, 'TaskState.process_tasks', "            all_dependencies += dependency_tasks\n",
+      "            for d in dependency_tasks:\n                if d in self.pending_tasks:\n                    continue\n                all_dependencies.append(d)\n"))
+silent('r8-deps-forwarded-identity-and-emptiness', ['C03', 'C02', 'C06'],
+       (LAB, 'TaskState.process_tasks', "            all_dependencies += dependency_tasks\n",
+        "            if len(dependency_tasks) > 0:\n                all_dependencies += [d for d in dependency_tasks if d is not None]\n"))
